@@ -239,8 +239,9 @@ class PythonTranslator(ASTTranslator):
         x = node.slice
         if isinstance(x, ast.Index):
             x = x.value
-        if isinstance(x, ast.Tuple):
+        if isinstance(x, ast.Tuple) and x.elts:
             key = ', '.join([elt.src for elt in x.elts])
+            if len(x.elts) == 1: key += ','
         elif isinstance(x, ast.Constant) and isinstance(x.value, tuple):
             key = repr(x.value)[1:-1]
         else:
